@@ -101,6 +101,27 @@ type bTheir struct {
 	UnitsFilled     uint32 `json:"unitsFilled"`
 	// order version of the counterparty's order (ServerAsk/ServerBid.Version)
 	Version uint32 `json:"version"`
+	// SEC encoding of the two keys on the wire: 0 compressed (33 bytes), 1 uncompressed, 2 hybrid (65 bytes).
+	// nodeKey / multiSigKey above are the canonical compressed form (what a parser must arrive at).
+	NodeKeyEnc     int `json:"nodeKeyEnc"`
+	MultiSigKeyEnc int `json:"multiSigKeyEnc"`
+}
+
+// bWireKey encodes a compressed public key (hex) in the given SEC encoding.
+func bWireKey(h string, enc int) []byte {
+	raw, _ := hex.DecodeString(h)
+	if enc == 0 {
+		return raw
+	}
+	k, err := bParseKey(h)
+	if err != nil {
+		return raw
+	}
+	u := k.SerializeUncompressed()
+	if enc == 2 {
+		u[0] = 0x06 | (u[64] & 1)
+	}
+	return u
 }
 
 type bMatched struct {
@@ -536,8 +557,8 @@ func (s *bStore) closeReal() {
 
 func bServerOrder(t *bTheir) *auctioneerrpc.ServerOrder {
 	nonce, _ := hex.DecodeString(t.Nonce)
-	ms, _ := hex.DecodeString(t.MultiSigKey)
-	np, _ := hex.DecodeString(t.NodeKey)
+	ms := bWireKey(t.MultiSigKey, t.MultiSigKeyEnc)
+	np := bWireKey(t.NodeKey, t.NodeKeyEnc)
 	return &auctioneerrpc.ServerOrder{
 		TraderKey:   bKey(bKeyAcct + 40).SerializeCompressed(),
 		RateFixed:   t.Rate,
